@@ -9,7 +9,7 @@ from .tape import Tape, derive_seed
 # property -> list of (scenario name, module, function, weight)
 SCENARIOS = {
     "C14": [("heap", "sim.heapsim", "run", 1)],
-    "C09": [("twin", "sim.c09", "run", 1)],
+    "C09": [("twin", "sim.c09", "run", 5), ("readers", "sim.c09", "run_readers", 1)],
     "C11": [("files", "sim.c11", "run_files", 2), ("files_faults", "sim.c11", "run_files_faults", 2),
             ("store", "sim.c11", "run_store", 1)],
 }
@@ -38,7 +38,10 @@ def execute(prop, scenario, tape, tier="quick", keep_events=False):
     fn = get_fn(prop, scenario)
     res = {"prop": prop, "scenario": scenario, "violation": None, "error": None,
            "discard": False}
-    try:
+    import gc
+    gc.collect()
+    gc.disable()        # cyclic GC timing depends on process history; finalizers (a __del__ that
+    try:                # closes a handle) must run at deterministic points only (refcounting)
         core.reset_run_state()
         fn(ctx)
     except core.Violation as v:
@@ -47,6 +50,8 @@ def execute(prop, scenario, tape, tier="quick", keep_events=False):
         res["discard"] = True
     except Exception:
         res["error"] = traceback.format_exc()
+    finally:
+        gc.enable()
     res.update(digest=ctx.digest(), sched_digest=ctx.sched_digest(), nsched=ctx.nsched,
                ndeviate=ctx.ndeviate, steps=ctx.steps, probes=dict(ctx.probes),
                faults=dict(ctx.faults), counts=dict(ctx.counts), sample=ctx.sample,
